@@ -297,8 +297,21 @@ def replacement_shape(ctx, s):
             facts = ctx.E.facts(g, b)
             if not any(f[0] == "true" and f[1][0] == "call" and f[1][1].endswith("::" + cls) for f in facts):
                 okg = False
-        s.add("S-DOM", g, "wrong-kind-guard", cls, g.sp, PROVED if okg else VIOLATION,
-              "every scan/removal is dominated by the %s test (other kinds are never displaced)" % cls if okg else
+        verdict = PROVED if okg else VIOLATION
+        if not okg and acts:
+            # the kind test made by every caller instead (moved out of the helper): each call site lies behind it
+            callers = s.callers(name)
+            allg = bool(callers)
+            for cn in callers:
+                cf = ctx.fn(cn)
+                for cb, ci in s.calls(cf, names={name}):
+                    if not any(f[0] == "true" and isinstance(f[1], tuple) and f[1][0] == "call" and f[1][1].endswith("::" + cls)
+                               for f in ctx.E.facts(cf, cb)):
+                        allg = False
+            if allg:
+                verdict = PROVED
+        s.add("S-DOM", g, "wrong-kind-guard", cls, g.sp, verdict,
+              "every scan/removal is dominated by the %s test, here or in every caller (other kinds are never displaced)" % cls if verdict == PROVED else
               "%s acts without the %s test" % (name.split("::")[-1], cls))
 
 
